@@ -56,6 +56,9 @@ def site(F, which):
     ret, rets = ip.call_body(b, args)
     s.which, s.body, s.ip, s.ret = which, b, ip, ret
     nx = [e for e in ip.events if e.body is b and e.callee and 'ConvexCellDecomposition' in e.callee and e.callee.endswith('::next')]
+    if not nx:
+        # the loop over the tetrahedra lives in a crate-local helper that was inlined into this evaluation (decision passed in as a closure or flag)
+        nx = [e for e in ip.events if e.callee and 'ConvexCellDecomposition' in e.callee and e.callee.endswith('::next')]
     if len(nx) != 1:
         raise AnalysisIncomplete('%s: %d reads of the tetrahedron stream' % (b['path'], len(nx)), b['path'])
     s.next = nx[0]
@@ -109,6 +112,10 @@ def classifier(s):
         dm = dtab.is_discr_eq(leaf)
         if dm is not None and repr(dm[0]) == 'mask':
             return ('MS', (dm[1] == 1) == dm[2])
+        if dm is not None:
+            xt = repr(dm[0])
+            if xt.endswith('[%s]' % s.Ktxt) and xt.startswith('phi'):
+                return ('AC', (dm[1] == 1) == dm[2])     # `if let Some(..) = slot[K]` on the per-plane slot as the loop left it
         p = dtab.option_leaf(leaf, s.hs + '.right_idx')
         if p is not None:
             return ('RS', p)
@@ -133,17 +140,18 @@ def table(s):
     return dtab.Table(names, classifier(s))
 
 
-def reached_table(s, events):
-    """rows -> True iff at least one of `events` is reached (their guards are mutually exclusive paths)."""
+def reached_table(s, events, raw=False):
+    """rows -> True iff at least one of `events` is reached (their guards are mutually exclusive paths).
+    For creation events the rows in which the record of plane K already exists (AC) carry no decision of their own: `get_or_insert` returns the
+    existing record, and an implementation may or may not repeat the test for later tetrahedra of the same plane (the answer is a function of the
+    plane alone). They take the verdict of the corresponding row with an empty slot.  `raw=True` gives the table as evaluated (used for collect events)."""
     T = table(s)
     out = {}
     for e in events:
         tab = T.tabulate(I.TRUE, e.guard)
         for row, v in tab.items():
             out[row] = out.get(row, 0) + (1 if v is not None else 0)
-    if getattr(s, 'by_assignment', False) and events and events[0] in s.creations:
-        # creation written as an assignment under "the slot is still empty": the rows in which the record already exists carry no
-        # decision of their own — they behave like the corresponding row with an empty slot (get_or_insert semantics)
+    if not raw and events and events[0] in s.creations:
         names = T.names
         ai = names.index('AC')
         for row in list(out):
@@ -160,7 +168,5 @@ def required(which, env):
     if which == 'integrals':
         return V
     if which == 'sym':
-        if AC:
-            return V
         return V and not (SN and RS and (not GT) and MR)
     raise KeyError(which)
